@@ -453,7 +453,7 @@ def lens_at(r, i):
 
 def run(ck):
     t_start = time.time()
-    proved = ck.prove()
+    proved = ck.prove(tables=[], extra_targets=["theories/Extract/HeapExtract.vo"])
     quick = ck.tier == "quick"
     N = 64 if quick else 2048
     EVN = 16 if quick else 48                   # leading samples whose events are logged for every program
